@@ -92,9 +92,50 @@ class Check(BaseCheck):
         return fails
 
     def search_cases(self):
-        return oriented_cases(self.seed + 122, 10 if self.quick else 80)
+        yield from oriented_cases(self.seed + 122, 10 if self.quick else 80)
+        rng = gen.rng_for(self.seed, "c17shape")
+        for k in range(8 if self.quick else 40):
+            inward = bool(k % 2)
+            if (k // 2) % 2 == 0:
+                v, t = gen.cylinder(int(rng.integers(12, 28)), int(rng.integers(4, 9)))
+                fam = "cylinder"
+            else:
+                v, t = gen.icosphere(2 + (k // 4) % 2)
+                fam = "sphere"
+            if inward:
+                t = t[:, [0, 2, 1]]
+            Q = gen.random_rotation(rng)
+            yield dict(v=float(rng.uniform(0.5, 3.0)) * (v @ Q.T) + rng.uniform(-1, 1, 3), t=t, smoothit=int(rng.integers(0, 11)), name=fam, family=fam,
+                       axis=Q @ np.array([0.0, 0.0, 1.0]), inward=inward)
+
+    def shape_clause(self, case):
+        """circular cylinder: the direction of smaller absolute curvature follows the axis; round sphere: principal values coincide"""
+        v = np.asarray(case["v"], float); t = np.asarray(case["t"], dtype=np.int64); sm = int(case["smoothit"])
+        try:
+            with core.quiet():
+                m = TriaMesh(v, t)
+                u_min, u_max, c_min, c_max, c_mean, c_gauss, normals = m.curvature(sm)
+                bnd = set(np.concatenate(m.boundary_loops()).tolist()) if not m.is_closed() else set()
+        except Exception as e:  # noqa: BLE001
+            return core.Violation("runs", "curvature raised %s: %s" % (type(e).__name__, e), case)
+        if case["family"] == "cylinder":
+            inter = np.array([i for i in range(len(v)) if i not in bnd])
+            small = np.where((np.abs(c_min) < np.abs(c_max))[:, None], u_min, u_max)[inter]
+            al = np.abs(small @ np.asarray(case["axis"], float))
+            if al.min() < 0.95:
+                return core.Violation("cylinder", "circular cylinder (%s oriented): direction of smaller absolute curvature makes |cos| = %.3g with the axis" % (
+                    "inward" if case.get("inward") else "outward", al.min()), case)
+        else:
+            dev = np.max(np.abs(c_max - c_min)) / max(np.abs(c_mean).mean(), 1e-300)
+            if dev > 0.15:
+                return core.Violation("sphere", "round sphere: principal values differ by %.3g of the mean curvature" % dev, case)
+        return None
 
     def oracle(self, case):
+        if case.get("family"):
+            r = self.shape_clause(case)
+            if r is not None:
+                return r
         v = np.asarray(case["v"], float); t = np.asarray(case["t"], dtype=np.int64); sm = int(case["smoothit"])
         try:
             m, calls, out, vn = run_curv(v, t, sm)
